@@ -79,9 +79,9 @@ package twig
 // up to and including the first comment end and adds no node
 //@   loop 1 snapshot i0 p.tokenIndex
 //@   loop 1 snapshot n0 len(nodes)
-//@   loop 1 step[C04] p.tokens[i0].Type == TOKEN_TEXT ==> p.tokenIndex == i0 + 1 && ((len(nodes) == n0 + 1 && typeIs(nodes[n0], "*TextNode") && unboxAs(nodes[n0], "*TextNode").content == p.tokens[i0].Value) || (len(nodes) == n0 && len(p.tokens[i0].Value) == 0))
-//@   loop 1 step[C04] p.tokens[i0].Type == TOKEN_COMMENT_START ==> len(nodes) == n0 && p.tokens[p.tokenIndex - 1].Type == TOKEN_COMMENT_END && (forall k int :: i0 < k && k < p.tokenIndex - 1 ==> p.tokens[k].Type != TOKEN_COMMENT_END)
-//@   loop 2 invariant[C04] i0 < p.tokenIndex && (forall k int :: i0 < k && k < p.tokenIndex ==> p.tokens[k].Type != TOKEN_COMMENT_END)
+//@   loop 1 step[C04,C14] p.tokens[i0].Type == TOKEN_TEXT ==> p.tokenIndex == i0 + 1 && ((len(nodes) == n0 + 1 && typeIs(nodes[n0], "*TextNode") && unboxAs(nodes[n0], "*TextNode").content == p.tokens[i0].Value) || (len(nodes) == n0 && len(p.tokens[i0].Value) == 0))
+//@   loop 1 step[C04,C14] p.tokens[i0].Type == TOKEN_COMMENT_START ==> len(nodes) == n0 && p.tokens[p.tokenIndex - 1].Type == TOKEN_COMMENT_END && (forall k int :: i0 < k && k < p.tokenIndex - 1 ==> p.tokens[k].Type != TOKEN_COMMENT_END)
+//@   loop 2 invariant[C04,C14] i0 < p.tokenIndex && (forall k int :: i0 < k && k < p.tokenIndex ==> p.tokens[k].Type != TOKEN_COMMENT_END)
 
 // the contract of the handler type and of every handler is the same text (group handlerspec)
 //@ group handlerspec props: C05
@@ -219,25 +219,25 @@ package twig
 //@ list poolempty contextMapPool blocksMapPool macrosMapPool
 // A context taken from the pool has arbitrary field values: NewRenderContext/Clone determine every
 // field that is read anywhere.
-//@ func NewRenderContext props: C06 C01
+//@ func NewRenderContext props: C06 C01 C02 C05 C10 C11 C12
 //@   nilable env engine
 //@   fresh
 //@   ensures !ret.sandboxed && ret.env == env && ret.engine == engine && ret.parent == nil
 // (what a new context starts with is also what inheritance (C10), include scoping (C11), macro
 // calls (C12) and the per-render resolution of relative names (C02) start from)
-//@   ensures[C01,C02,C10,C11,C12] !ret.extending && ret.currentBlock == nil && ret.blockLevel == 0 && !ret.inParentCall && ret.lastLoadedTemplate == nil
-//@   ensures[C01,C10,C11] ret.blocks != ret.parentBlocks
-//@   ensures[C01,C10,C11,C12] mapEmpty(ret.blocks) && mapEmpty(ret.parentBlocks) && mapEmpty(ret.macros)
-//@   ensures[C01,C11,C12] ret.context != nil && ret.context != context
+//@   ensures[C01,C02,C10,C11,C12,C05] !ret.extending && ret.currentBlock == nil && ret.blockLevel == 0 && !ret.inParentCall && ret.lastLoadedTemplate == nil
+//@   ensures[C01,C10,C11,C02,C05,C12] ret.blocks != ret.parentBlocks
+//@   ensures[C01,C10,C11,C12,C02,C05] mapEmpty(ret.blocks) && mapEmpty(ret.parentBlocks) && mapEmpty(ret.macros)
+//@   ensures[C01,C11,C12,C02,C05,C10] ret.context != nil && ret.context != context
 //@   ensures freshRef(ret.context) && freshRef(ret.blocks) && freshRef(ret.parentBlocks) && freshRef(ret.macros)
-//@   ensures[C01] forall k string :: has(ret.context, k) == (context != nil && has(context, k))
-//@   ensures[C01] forall k string :: context != nil && has(context, k) ==> ret.context[k] == context[k]
-//@ func (*RenderContext).Clone props: C06 C01
+//@   ensures[C01,C02,C05,C10,C11,C12] forall k string :: has(ret.context, k) == (context != nil && has(context, k))
+//@   ensures[C01,C02,C05,C10,C11,C12] forall k string :: context != nil && has(context, k) ==> ret.context[k] == context[k]
+//@ func (*RenderContext).Clone props: C06 C01 C02 C05 C10 C11 C12
 //@   fresh
 //@   ensures ret.sandboxed == ctx.sandboxed && ret.env == ctx.env && ret.engine == ctx.engine && ret.parent == ctx
-//@   ensures[C01,C10,C11] !ret.extending && ret.currentBlock == nil && ret.blockLevel == 0 && !ret.inParentCall
-//@   ensures[C01,C11,C02] mapEmpty(ret.context) && mapEmpty(ret.parentBlocks) && ret.lastLoadedTemplate == ctx.lastLoadedTemplate
-//@   ensures[C01,C10,C11] ret.blocks != nil && ret.blocks != ctx.blocks && ret.macros != nil && ret.macros != ctx.macros
+//@   ensures[C01,C10,C11,C02,C05,C12] !ret.extending && ret.currentBlock == nil && ret.blockLevel == 0 && !ret.inParentCall
+//@   ensures[C01,C11,C02,C05,C10,C12] mapEmpty(ret.context) && mapEmpty(ret.parentBlocks) && ret.lastLoadedTemplate == ctx.lastLoadedTemplate
+//@   ensures[C01,C10,C11,C02,C05,C12] ret.blocks != nil && ret.blocks != ctx.blocks && ret.macros != nil && ret.macros != ctx.macros
 // retiring a context touches that context only
 //@ func (*RenderContext).Release props: C11
 //@   modifies ctx.env, ctx.engine, ctx.currentBlock, ctx.context, ctx.blocks, ctx.parentBlocks, ctx.macros, ctx.parent
@@ -338,9 +338,9 @@ package twig
 // evictLRUEntries is documented as "caller holds the attributeCache lock"
 //@ func evictLRUEntries props: C02 C20
 //@   flag holds attributeCache
-//@   requires[C20,C01] global CacheOK()
-//@   ensures[C20,C01] CacheOK()
-//@   loop * invariant[C20,C01] CacheOK()
+//@   requires[C20,C01,C03] global CacheOK()
+//@   ensures[C20,C01,C03] CacheOK()
+//@   loop * invariant[C20,C01,C03] CacheOK()
 //@ func evictLRUEntries$1 props: C02
 //@   flag holds attributeCache
 // pooled per-call objects: nothing they own may be used after they are handed back
@@ -685,22 +685,22 @@ package twig
 //@   ensures[C15] isHit() && e.autoReload && cached().loader != nil && !tsAware() ==> err == nil && ret0 == cached() && tr == old(tr)
 //@   ensures[C15] isHit() && e.autoReload && cached().loader != nil && tsAware() && mtimeErr(cached().loader, name) == nil && mtimeOf(cached().loader, name) <= cached().lastModified ==> err == nil && ret0 == cached() && tr == old(tr)
 // switching the cache on or off changes the setting, not what is registered or cached
-//@ func (*Engine).SetCache props: C15
+//@ func (*Engine).SetCache props: C15 C01 C16
 //@   requires e.environment != nil
-//@   ensures[C15] tplSame() && e.environment.cache == enabled
+//@   ensures[C15,C01,C16] tplSame() && e.environment.cache == enabled
 // registration: the engine serves the source most recently registered under a name
-//@ func (*Engine).RegisterString props: C15
+//@ func (*Engine).RegisterString props: C15 C01 C16
 //@   requires e.environment != nil
-//@   ensures[C15] err == nil ==> has(e.templates, name) && e.templates[name].source == source && e.templates[name].name == name
-//@   ensures[C15] err != nil ==> tplSame()
+//@   ensures[C15,C01,C16] err == nil ==> has(e.templates, name) && e.templates[name].source == source && e.templates[name].name == name
+//@   ensures[C15,C01,C16] err != nil ==> tplSame()
 // a template handed to RegisterTemplate is kept when caching is enabled and always when it has no
 // loader (registered by the application)
-//@ func (*Engine).RegisterTemplate props: C15
+//@ func (*Engine).RegisterTemplate props: C15 C01 C16
 //@   requires e.environment != nil
 //@   nonnil template
 //@   modifies template.lastModified, entries(e.templates), e.mu
-//@   ensures[C15] e.environment.cache || template.loader == nil ==> has(e.templates, name) && e.templates[name] == template
-//@   ensures[C15] template.lastModified == ite(old(template.lastModified) == 0, template.lastModified, old(template.lastModified))
+//@   ensures[C15,C01,C16] e.environment.cache || template.loader == nil ==> has(e.templates, name) && e.templates[name] == template
+//@   ensures[C15,C01,C16] template.lastModified == ite(old(template.lastModified) == 0, template.lastModified, old(template.lastModified))
 // a compiled template registered on an engine is served under its name with the compiled source
 //@ func (*Engine).RegisterCompiledTemplate props: C16 C15
 //@   requires e.environment != nil
@@ -718,8 +718,8 @@ package twig
 //@ define FV() ufV_fieldByPath(OV(), ufS_fieldPath(OT(), attr))
 //@ define structCase() (obj != nil && !typeIs(obj, "map[string]interface{}") && ufi_kind(OV()) == 25)
 //@ func (*RenderContext).getAttribute props: C20
-//@   requires[C20,C01] global CacheOK()
-//@   ensures[C20,C01] CacheOK()
+//@   requires[C20,C01,C03] global CacheOK()
+//@   ensures[C20,C01,C03] CacheOK()
 //@   ensures[C20] err == nil && structCase() && uf_hasField(OT(), attr) && len(ufS_fieldPath(OT(), attr)) >= 1 && ufI_fieldByPathErr(OV(), ufS_fieldPath(OT(), attr)) == nil && uf_isValid(FV()) && uf_canIface(FV()) ==> ret0 == ufI_iface(FV())
 //@   ensures[C20] err == nil && structCase() && !uf_hasField(OT(), attr) && !valMeth(OT(), attr) && !ptrMeth(OT(), attr) ==> ret0 == nil
 //@   ensures[C20] err == nil && typeIs(obj, "map[string]interface{}") ==> ret0 == ite(has(unboxAs(obj, "map[string]interface{}"), attr), unboxAs(obj, "map[string]interface{}")[attr], nil)
@@ -1100,7 +1100,7 @@ package twig
 //@ list ctx_unused (*TextNode).Render (*VerbatimNode).Render (*CommentNode).Render
 //@ list writes_nothing (*CommentNode).Render
 // WriteString hands the string, unchanged, to the writer's own WriteString or to the pooled buffer
-//@ func WriteString props: C04
+//@ func WriteString props: C04 C14
 //@   atcall io.StringWriter.WriteString a1 == s
 //@   atcall (*Buffer).WriteString#1 a1 == s
 //@   atcall (*Buffer).WriteString#2 a1 == s
@@ -1289,9 +1289,9 @@ package twig
 //@   ensures[C19] value != nil && !typeIs(value, "map[string]interface{}") && ufi_kind(ufV_valueOf(value)) == 21 ==> ret1 == nil && typeIs(ret0, "[]interface{}") && len(asList(ret0)) <= ufi_rvlen(ufV_valueOf(value))
 // reverse of a list: same length, element k is element len-1-k of the input, in a new list (so it
 // is a length-preserving involution and the input is untouched)
-//@ func (*CoreExtension).filterReverse props: C19
-//@   loop 2 invariant[C19] typeIs(value, "[]interface{}") && i + j == len(asList(value)) - 1 && 0 <= i && 0 - 1 <= j && len(result) == len(asList(value)) && freshArr(result) && (forall k int :: 0 <= k && k < i ==> result[k] == asList(value)[len(asList(value)) - 1 - k])
-//@   ensures[C19] typeIs(value, "[]interface{}") ==> ret1 == nil && typeIs(ret0, "[]interface{}") && len(asList(ret0)) == len(asList(value)) && (forall k int :: 0 <= k && k < len(asList(value)) ==> asList(ret0)[k] == asList(value)[len(asList(value)) - 1 - k])
+//@ func (*CoreExtension).filterReverse props: C19 C03
+//@   loop 2 invariant[C19,C03] typeIs(value, "[]interface{}") && i + j == len(asList(value)) - 1 && 0 <= i && 0 - 1 <= j && len(result) == len(asList(value)) && freshArr(result) && (forall k int :: 0 <= k && k < i ==> result[k] == asList(value)[len(asList(value)) - 1 - k])
+//@   ensures[C19,C03] typeIs(value, "[]interface{}") ==> ret1 == nil && typeIs(ret0, "[]interface{}") && len(asList(ret0)) == len(asList(value)) && (forall k int :: 0 <= k && k < len(asList(value)) ==> asList(ret0)[k] == asList(value)[len(asList(value)) - 1 - k])
 // default: replaces exactly the undefined (nil) and the empty values
 //@ func (*CoreExtension).filterDefault props: C19
 //@   ensures[C19] ret1 == nil && ret0 == ite(len(args) > 0 && (value == nil || fn_isEmptyValue_0(value)), args[0], value)
@@ -1317,16 +1317,16 @@ package twig
 //@ define ownLoopMap() unboxAs(loopVars["loop"], "map[string]interface{}")
 //@ func (*ForNode).renderForLoop props: C09
 //@   requires ctx.context != nil
-//@   atcall[C09] Node.Render#1 a2 == ctx && seq == nil
-//@   atcall[C09] Node.Render#2 a2 == ctx && (!isIterable || length == 0)
+//@   atcall[C09,C10,C11] Node.Render#1 a2 == ctx && seq == nil
+//@   atcall[C09,C10,C11] Node.Render#2 a2 == ctx && (!isIterable || length == 0)
 //@   loop 4 invariant[C09] 0 <= i && length == ufi_rvlen(val) && loopMapFresh() && has(ownLoopMap(), "length") && isInt(ownLoopMap()["length"], length)
 //@   loop 8 invariant[C09] 0 - 1 <= i && loopMapFresh() && has(ownLoopMap(), "length") && isInt(ownLoopMap()["length"], length)
 //@   loop 5 invariant[C09] rangeindex + 1 == 0 ==> loopMeta(i) && i < length
 //@   loop 9 invariant[C09] rangeindex + 1 == 0 ==> loopMeta(i)
 //@   loop 5 invariant[C09] loopMapFresh() && has(ownLoopMap(), "length") && isInt(ownLoopMap()["length"], length)
 //@   loop 9 invariant[C09] loopMapFresh() && has(ownLoopMap(), "length") && isInt(ownLoopMap()["length"], length)
-//@   atcall[C09] Node.Render#3 a2 == ctx
-//@   atcall[C09] Node.Render#5 a2 == ctx
+//@   atcall[C09,C10,C11] Node.Render#3 a2 == ctx
+//@   atcall[C09,C10,C11] Node.Render#5 a2 == ctx
 //@ func sameValue props: C05
 //@   pure
 // small invariants that settle safety obligations formerly listed as undecided
